@@ -118,6 +118,19 @@ def locate(fn: ast.AST, locator) -> ast.AST:
             if ast.unparse(node.value) == var and isinstance(node.slice, ast.Slice) and node.slice.upper is not None:
                 return node.slice.upper
         raise Unsupported(f"slice of {var} not found")
+    if kind in ("slice_upper_n", "slice_lower_n"):
+        # the n-th subscript slice of the named variable that has an upper bound / that is open-ended with a lower bound (source order)
+        var, n = locator[1], locator[2]
+        hits = []
+        for node in sorted((x for x in ast.walk(fn) if isinstance(x, ast.Subscript)), key=lambda x: (x.lineno, x.col_offset)):
+            if ast.unparse(node.value) == var and isinstance(node.slice, ast.Slice) and node.slice.step is None:
+                if kind == "slice_upper_n" and node.slice.upper is not None:
+                    hits.append(node.slice.upper)
+                if kind == "slice_lower_n" and node.slice.upper is None and node.slice.lower is not None:
+                    hits.append(node.slice.lower)
+        if len(hits) <= n:
+            raise Unsupported(f"slice #{n} of {var} not found ({len(hits)} such slices)")
+        return hits[n]
     raise Unsupported(f"unknown locator {locator}")
 
 
@@ -373,6 +386,13 @@ KERNELS = [
          model="((f : Int) - ((a : Int) + 8))", model_is_nat=False, imports=["Model.Py"], unfold=[]),
     dict(name="VtGuard", props=["C12"], file="_rpc/_verification.py", func="VerificationTrailer.unpack", kind="prop", loc=("if_containing", "len(view)"), typ="Nat",
          subst={"len(view)": "n"}, params="(n : Nat)", obl="(n : Nat)", call="n", model="(n < 4)", imports=["Model.Py"], unfold=[]),
+    # how far `VerificationTrailer.unpack` and `Command.unpack` move: past the 8-octet signature, past each command (4 + its value), the value's end
+    dict(name="VtSkipSignature", props=["C12"], file="_rpc/_verification.py", func="VerificationTrailer.unpack", loc=("slice_lower_n", "view", 0), typ="Nat",
+         subst={}, params="", obl="", call="", model="8", imports=["Model.Py"], unfold=[]),
+    dict(name="VtAdvance", props=["C12"], file="_rpc/_verification.py", func="VerificationTrailer.unpack", loc=("slice_lower_n", "view", 1), typ="Nat",
+         subst={"len(cmd.value)": "n"}, params="(n : Nat)", obl="(n : Nat)", call="n", model="4 + n", imports=["Model.Py"], unfold=[]),
+    dict(name="CmdValueEnd", props=["C12"], file="_rpc/_verification.py", func="Command.unpack", loc=("slice_upper_n", "view", 2), typ="Nat",
+         subst={"command_length": "n"}, params="(n : Nat)", obl="(n : Nat)", call="n", model="4 + n", imports=["Model.Py"], unfold=[]),
     dict(name="ReqEncEnd", props=["C13", "C16"], file="_rpc/_client.py", func="RpcClient._create_request", loc=("assign_tuple_elt", "encrypt_offsets", 1), typ="Nat",
          subst={"len(stub_data)": "n"}, params="(n : Nat)", obl="(n : Nat)", call="n", model="24 + n", imports=["Model.Py"], unfold=[]),
     dict(name="ReqEncStart", props=["C13", "C16"], file="_rpc/_client.py", func="RpcClient._create_request", loc=("assign_tuple_elt", "encrypt_offsets", 0), typ="Nat",
